@@ -1,7 +1,7 @@
 (* C17 -- non-vacuity: concrete spaces meet the hypotheses of the theorems. *)
 From Coq Require Import QArith Qcanon ZArith List Arith Bool Lia.
 From Verif.lib Require Import Bsp.
-From Verif.C17 Require Import Model Spec Proofs.
+From Verif.C17 Require Import Model Spec Proofs ProofsGrid.
 Import ListNotations.
 Open Scope Qc_scope.
 
@@ -110,4 +110,24 @@ Proof. vm_compute. reflexivity. Qed.
 (* the Galerkin matrix of the example is invertible: hypothesis of hspace_l2_reproduces_partial *)
 Example ex_hier_injective :
   match inverse (map (fun i => map (fun j => galerkin 4 6 Cq_ex P_ex w_ex i j) (seq 0 2)) (seq 0 2)) with Some _ => true | None => false end = true.
+Proof. vm_compute. reflexivity. Qed.
+
+(* ---- ProofsGrid: hypotheses are met by the two-axis example (4 and 7 nodes) ---- *)
+Example ex_cols_are : ProofsGrid.cols_are [4%nat; 7%nat] [op_of_mat S2; op_of_mat S3].
+Proof. repeat constructor. Qed.
+(* data that agree with the spline on the node grid only (and are junk elsewhere) are reproduced *)
+Definition ex_rhs : tens := fun idx =>
+  if (Nat.ltb (nth 0 idx 0%nat) 4 && Nat.ltb (nth 1 idx 0%nat) 7)%bool
+  then tprod [op_of_mat C2; op_of_mat C3] ex_c idx else q 99 1.
+Example ex_reproduced_on_grid :
+  forallb (fun idx => qeqb (tprod_loop [op_of_mat S2; op_of_mat S3] ex_rhs idx) (ex_c idx))
+          (all_idx [4%nat; 7%nat; 2%nat]) = true.
+Proof. vm_compute. reflexivity. Qed.
+(* component selection on a vector valued polynomial, through grid_eval *)
+Definition ex_f : func := poly_func [[(q 1 1, [1%nat; 2%nat])]; [(q 3 1, [0%nat; 1%nat]); (q (-1) 2, [2%nat; 0%nat])]].
+Example ex_component_selection :
+  forallb (fun i => forallb (fun t =>
+     qeqb (tprod_loop [op_of_mat S2; op_of_mat S3] (grid_eval ex_f [greville kv2 2; greville kv3 3]) (i ++ [t]))
+          (tprod_loop [op_of_mat S2; op_of_mat S3] (grid_eval (ProofsGrid.select ex_f [t]) [greville kv2 2; greville kv3 3]) i))
+     [0%nat; 1%nat]) (all_idx [4%nat; 7%nat]) = true.
 Proof. vm_compute. reflexivity. Qed.
